@@ -200,6 +200,7 @@ type c15case struct {
 	within  int // 0 = no WITHIN clause
 	rows    []c15row
 	noPart  bool // single partition and no PARTITION BY clause
+	allRows bool // ALL ROWS PER MATCH: the output rows carry the input columns (id) and MATCH_NUMBER
 	tag     string
 }
 
@@ -238,7 +239,11 @@ func (c *c15case) sql() string {
 	if !c.noPart {
 		sb.WriteString("PARTITION BY p ")
 	}
-	sb.WriteString("ORDER BY ts MEASURES MATCH_NUMBER() AS mn, FIRST(id) AS f, LAST(id) AS l, COUNT(*) AS n ONE ROW PER MATCH ")
+	if c.allRows {
+		sb.WriteString("ORDER BY ts MEASURES MATCH_NUMBER() AS mn ALL ROWS PER MATCH ")
+	} else {
+		sb.WriteString("ORDER BY ts MEASURES MATCH_NUMBER() AS mn, FIRST(id) AS f, LAST(id) AS l, COUNT(*) AS n ONE ROW PER MATCH ")
+	}
 	switch c.skip {
 	case "P":
 		sb.WriteString("AFTER MATCH SKIP PAST LAST ROW ")
@@ -293,11 +298,45 @@ func (c *c15case) run() (string, error) {
 	var mu sync.Mutex
 	var outs []string
 	bad := ""
+	// ALL ROWS PER MATCH: one sink call carries the rows of the matches emitted by one event; the rows
+	// of a match are adjacent and share MATCH_NUMBER and partition. They are folded into the same
+	// observable (mn, first id, last id, count); count is forced to 0 (= not a run) when the ids are
+	// not increasing or leave the partition.
+	type acc struct{ part, mn, f, l, n int }
+	var cur *acc
+	flush := func() {
+		if cur != nil {
+			if cur.n < 0 {
+				cur.n = 0
+			}
+			outs = append(outs, fmt.Sprintf("%d %d %d %d %d", cur.part, cur.mn, cur.f, cur.l, cur.n))
+			cur = nil
+		}
+	}
 	s.AddSyncSink(func(rs []map[string]any) {
 		mu.Lock()
 		defer mu.Unlock()
 		for _, r := range rs {
 			mn, ok1 := c15int(r["mn"])
+			if c.allRows {
+				id, ok2 := c15int(r["id"])
+				if !(ok1 && ok2) || id < 1 || id > len(c.rows) {
+					bad = fmt.Sprint(r)
+					continue
+				}
+				part := c.rows[id-1].part
+				if cur != nil && cur.part == part && cur.mn == mn {
+					if id <= cur.l {
+						cur.n = -1 << 30
+					}
+					cur.l = id
+					cur.n++
+				} else {
+					flush()
+					cur = &acc{part, mn, id, id, 1}
+				}
+				continue
+			}
 			f, ok2 := c15int(r["f"])
 			l, ok3 := c15int(r["l"])
 			n, ok4 := c15int(r["n"])
@@ -307,6 +346,7 @@ func (c *c15case) run() (string, error) {
 			}
 			outs = append(outs, fmt.Sprintf("%d %d %d %d %d", c.rows[f-1].part, mn, f, l, n))
 		}
+		flush()
 	})
 	st := s.Stream()
 	st.VerifCepLiftGuards()
@@ -422,6 +462,7 @@ func c15random(r *RNG, maxRows int) *c15case {
 	if np == 1 && r.Intn(3) == 0 {
 		c.noPart = true
 	}
+	c.allRows = r.Intn(4) == 0
 	n := r.Range(1, maxRows)
 	ts := r.Range(1, 3)
 	// classes that some variable accepts are more frequent than the others
@@ -460,10 +501,15 @@ func c15random(r *RNG, maxRows int) *c15case {
 	if c.within > 0 {
 		c.tag += " within"
 	}
+	if c.allRows {
+		c.tag += " all_rows_per_match"
+	} else {
+		c.tag += " one_row_per_match"
+	}
 	return c
 }
 
-func c15lit(v int) *c15pat { return &c15pat{kind: 'L', v: v} }
+func c15lit(v int) *c15pat        { return &c15pat{kind: 'L', v: v} }
 func c15seq(k ...*c15pat) *c15pat { return &c15pat{kind: 'S', kids: k} }
 func c15alt(k ...*c15pat) *c15pat { return &c15pat{kind: 'U', kids: k} }
 func c15rep(mn, mx int, k *c15pat) *c15pat {
